@@ -27,7 +27,7 @@ CONSTANTS
   MaxCalls,     \* bound on engine calls per behaviour (start + resumes, accepted or not)
   TrigKinds,    \* subset of {"manual", "msg", "flow_action"}
   ResumeKinds,  \* subset of {"msg", "timeout", "expiration", "dial"}
-  NodeKinds,    \* subset of {"act", "failact", "split", "wait", "enter"}
+  NodeKinds,    \* subset of {"act", "failact", "split", "wait", "dialwait", "enter"}
   DfltChoices,  \* subset of BOOLEAN: may switch routers lack a default category
   FaultKinds,   \* subset of {"flow_gone", "parent_gone", "node_gone", "wait_gone", "wait_dial"} (asset faults between sprints)
   MaxFaults,
@@ -88,6 +88,9 @@ NodeDefs ==
            a \in IF "split" \in NodeKinds THEN Dests \X Dests \X DfltChoices ELSE {}}
   \cup {NodeRec("wait", a[1], a[2], a[3], a[4], 0, FALSE) :
            a \in IF "wait" \in NodeKinds THEN Dests \X Dests \X DfltChoices \X (0..2) ELSE {}}
+  \* a dial wait (voice flows): same router behind a wait that only a dial resume (or an expiration) gets past
+  \cup {NodeRec("dialwait", a[1], a[2], a[3], 0, 0, FALSE) :
+           a \in IF "dialwait" \in NodeKinds THEN Dests \X Dests \X DfltChoices ELSE {}}
   \cup {NodeRec("enter", a[1], a[2], TRUE, 0, a[3], a[4]) :
            a \in IF "enter" \in NodeKinds THEN Dests \X Dests \X Flows \X BOOLEAN ELSE {}}
 
